@@ -184,12 +184,14 @@ fn main() {
         let ty = c["ty"].as_str().unwrap();
         let width = widths[ty];
         let mut raw = new_raw(ty);
-        let mut fp: Option<(String, Value)> = None;
+        // one report per distinct kind of disagreement in a case: a kind that is a recorded finding must not hide a different one
+        let mut fps: Vec<(String, Value)> = vec![];
+        let mut note = |fps: &mut Vec<(String, Value)>, kind: String, d: Value| { if !fps.iter().any(|(k, _)| *k == kind) { fps.push((kind, d)); } };
         for h in c["hist"].as_array().unwrap() {
             let (n, v, ok) = (h["n"].as_str().unwrap(), val_of(h["v"].as_str().unwrap(), width), h["ok"].as_bool().unwrap());
             match guarded(|| set_by_name(&mut raw, n, v)) {
-                Ok(r) => if r != ok { fp = Some((if ok { if memoize(&new_raw(ty), n).is_some() { "set-rejected".into() } else { "alias-set-rejected".into() } } else { "unknown-name-set".into() }, json!({"set": n}))); },
-                Err(p) => fp = Some(("set-panic".into(), json!({"set": n, "panic": p}))),
+                Ok(r) => if r != ok { note(&mut fps, if ok { if memoize(&new_raw(ty), n).is_some() { "set-rejected".into() } else { "alias-set-rejected".into() } } else { "unknown-name-set".into() }, json!({"set": n})); },
+                Err(p) => note(&mut fps, "set-panic".into(), json!({"set": n, "panic": p})),
             }
         }
         let ctx = MinidumpContext::from_raw(raw.clone());
@@ -197,30 +199,28 @@ fn main() {
         for (slot, v) in c["slots"].as_object().unwrap() {
             let want = val_of(v.as_str().unwrap(), width);
             let got = raw_slot(&raw, slot);
-            if got != want && fp.is_none() { fp = Some(("wrong-slot-written".into(), json!({"slot": slot, "expected": want, "observed": got}))); }
+            if got != want { note(&mut fps, "wrong-slot-written".into(), json!({"slot": slot, "expected": want, "observed": got})); }
         }
         // reads by every name and alias
         for (n, v) in c["reads"].as_object().unwrap() {
             let want = val_of(v.as_str().unwrap(), width);
             match guarded(|| (ctx.get_register_always(n), ctx.get_register(n))) {
-                Ok((a, b)) => if (a != want || b != Some(want)) && fp.is_none() {
+                Ok((a, b)) => if a != want || b != Some(want) {
                     let kind = if b.is_none() && a == want { "name-not-readable-through-get_register" } else { "read" };
-                    fp = Some((kind.into(), json!({"name": n, "expected": want, "get_register_always": a, "get_register": b})));
+                    note(&mut fps, kind.into(), json!({"name": n, "expected": want, "get_register_always": a, "get_register": b}));
                 },
-                Err(p) => if fp.is_none() { fp = Some(("read-panic".into(), json!({"name": n, "panic": p}))); },
+                Err(p) => note(&mut fps, "read-panic".into(), json!({"name": n, "panic": p})),
             }
         }
         let (sp, ip) = (val_of(c["sp"].as_str().unwrap(), width), val_of(c["ip"].as_str().unwrap(), width));
-        if (ctx.get_stack_pointer() != sp || ctx.get_instruction_pointer() != ip) && fp.is_none() {
-            fp = Some(("sp-ip-accessor".into(), json!({"expected": [sp, ip], "observed": [ctx.get_stack_pointer(), ctx.get_instruction_pointer()]})));
+        if ctx.get_stack_pointer() != sp || ctx.get_instruction_pointer() != ip {
+            note(&mut fps, "sp-ip-accessor".into(), json!({"expected": [sp, ip], "observed": [ctx.get_stack_pointer(), ctx.get_instruction_pointer()]}));
         }
         rep.evaluations += 1;
         rep.class(&format!("hist:{}", ty));
         if !c["hist"].as_array().unwrap().is_empty() { rep.nontrivial(&(ty.to_string(), c["hist"].to_string())); }
-        match fp {
-            Some((kind, d)) => rep.mismatch(&format!("registers:{}:{}", ty, kind), json!({"type": ty, "hist": c["hist"], "detail": d})),
-            None => if c["hist"].as_array().unwrap().len() == 2 && rep.samples.len() < 6 { rep.sample(json!({"type": ty, "hist": c["hist"], "sp": c["sp"], "ip": c["ip"]})); },
-        }
+        if fps.is_empty() && c["hist"].as_array().unwrap().len() == 2 && rep.samples.len() < 6 { rep.sample(json!({"type": ty, "hist": c["hist"], "sp": c["sp"], "ip": c["ip"]})); }
+        for (kind, d) in fps { rep.mismatch(&format!("registers:{}:{}", ty, kind), json!({"type": ty, "hist": c["hist"], "detail": d})); }
     });
     rep.finish();
 }
